@@ -122,6 +122,8 @@ func c16Expr(c c16Case) string {
 		path = "h/g/z"
 	case "nested-prefixed":
 		path = "gm:h/gm:z"
+	case "through-list":
+		path = "m/z"
 	}
 	return path + sp + c.Op + sp + lit
 }
@@ -151,6 +153,9 @@ func c16Run(c c16Case, o *hx.Obs) {
 			return &dm.Node{Kind: "container", Name: "h", Children: []*dm.Node{z}}
 		case "nested2":
 			return &dm.Node{Kind: "container", Name: "h", Children: []*dm.Node{{Kind: "container", Name: "g", Children: []*dm.Node{z}}}}
+		case "through-list":
+			// the operand is a leaf of the entries of a list inside the row: the row is kept when some entry satisfies
+			return &dm.Node{Kind: "list", Name: "m", Keys: []string{"j"}, Children: []*dm.Node{{Kind: "leaf", Name: "j", Type: &dm.Type{Base: "string"}}, z}}
 		}
 		return z
 	}
@@ -211,6 +216,9 @@ func c16Run(c c16Case, o *hx.Obs) {
 			t["h"] = dm.Tree{"z": c.Values[i]}
 		case "nested2":
 			t["h"] = dm.Tree{"g": dm.Tree{"z": c.Values[i]}}
+		case "through-list":
+			// an entry without the operand first, then the one that holds it
+			t["m"] = []interface{}{dm.Tree{"j": "0"}, dm.Tree{"j": "1", "z": c.Values[i]}}
 		default:
 			t["z"] = c.Values[i]
 		}
@@ -524,6 +532,9 @@ func c16Gen(t *rapid.T) c16Case {
 	c := c16Case{Base: rapid.SampledFrom(c16Bases).Draw(t, "base"), Placement: rapid.SampledFrom([]string{"container-when", "leaf-when", "list-when", "list-when-where", "uses-when", "augment-when", "where", "where", "filter"}).Draw(t, "placement"),
 		Edit: rapid.IntRange(0, 3).Draw(t, "edit") == 0, Spaces: rapid.Bool().Draw(t, "spaces"), Quoted: rapid.IntRange(0, 3).Draw(t, "quoted") == 0,
 		Shape: rapid.SampledFrom([]string{"", "", "", "nested", "nested2"}).Draw(t, "shape")}
+	if c.Placement == "where" && rapid.IntRange(0, 3).Draw(t, "through-list") == 0 {
+		c.Shape = "through-list"
+	}
 	if (c.Placement == "uses-when" || c.Placement == "augment-when") && !c.Edit {
 		c.Own = rapid.SampledFrom([]string{"", "holds", "fails"}).Draw(t, "own-when")
 	}
